@@ -148,9 +148,21 @@ def run(res, tier, seed, model_ok, search):
     res.rule = ("whole simulation runs with single and multi-order trades, replacements, fills, cancels, lapses, voids, failed placements and "
                 "failure responses, max_trade_count in {2,3,1e6}, max_live_trade_count in {1,2,5}, multi_order_trades on/off, cool-downs; the "
                 "oracle recounts live trades from the orders inside every callback and after every update. non-trivial = a runner context "
-                "existed; distinct = scenario index")
+                "existed; distinct = scenario index. Plus the live histories of C11 (stream / response races), recount after every event")
     simcheck.run(res, "C10", tier, seed, model_ok, search, n_quick=400, n_thorough=12000)
+    # live-exchange double (the histories of C11, where the order stream and the REST responses race): after every event the
+    # runner is charged with exactly the placed trades that still have an order that is not complete
+    from props import C11
+    sub = C11.live_findings(tier, seed, search)
+    res.evaluations += sub.evaluations
+    res.distribution["live-histories"] += sub.evaluations
+    for v in sub.violations:
+        if v["signature"] in ("live-trade-accounting", "live-processing-crashed"):
+            res.violations.append(v)
 
 
 def replay(payload):
+    if "scenario" not in (payload.get("replay") or {}):
+        from props import C11
+        return C11.replay(payload)        # a live-domain history
     return simcheck.generic_replay("C10", payload)
